@@ -16,6 +16,7 @@ from checks import c18
 from checks import c19
 from checks import c15
 from checks import x01
+from checks import x02
 
 
 def c08(ctx):
@@ -59,4 +60,5 @@ CHECKS = {
     "C08": c08,
     # growth beyond the listed properties (not registered in MANIFEST.json)
     "X01": x01.run,
+    "X02": x02.run,
 }
